@@ -530,7 +530,7 @@ func (e *SpecEnv) resolveType(s string) (types.Type, string) {
 	case "int":
 		return types.Typ[types.Int], SInt
 	case "real", "float64":
-		return types.Typ[types.Float64], SReal
+		return types.Typ[types.Float64], curFloatSort
 	case "bool":
 		return types.Typ[types.Bool], SBool
 	case "string":
